@@ -740,6 +740,15 @@ func (w *Worktree) resetWorktreeToTree(cfg *config.Config, fromTree, toTree *obj
 		if len(files) > 0 && !inFiles(filesMap, name) {
 			continue
 		}
+		// A directory standing where the deleted file used to be holds
+		// only content git does not track: leave it alone, as git does
+		// (its unlink of the path fails and the directory stays). A
+		// submodule is a directory by nature and is still removed.
+		if e, err := fromTree.FindEntry(name); err == nil && e.Mode != filemode.Submodule {
+			if fi, err := fs.Lstat(name); err == nil && fi.IsDir() {
+				continue
+			}
+		}
 		if err := rmFileAndDirsIfEmpty(fs, name); err != nil {
 			return err
 		}
